@@ -100,10 +100,10 @@ class Arr:
         with open(self.conf, 'w') as f:
             f.write('\n'.join(L) + '\n')
 
-    def cmd(self, op, *args, env=None, opts=None, timeout=120, stdin=None):
+    def cmd(self, op, *args, env=None, opts=None, timeout=120, stdin=None, uselog=True):
         self.nlog += 1
         log = os.path.join(self.root, 'log%d.txt' % self.nlog)
-        argv = [self.exe] + (BASE_OPTS if opts is None else list(opts)) + ['-c', self.conf, '-l', log] + list(args) + [op]
+        argv = [self.exe] + (BASE_OPTS if opts is None else list(opts)) + ['-c', self.conf] + (['-l', log] if uselog else []) + list(args) + [op]
         e = dict(os.environ)
         if env:
             e.update(env)
